@@ -3,7 +3,7 @@
 use std::collections::{BTreeMap, BTreeSet};
 
 use crate::{
-    ast::{AssignMode, Condition, Divert, Expression, Flow, Node, ParsedStory},
+    ast::{AssignMode, Condition, Divert, DynamicStringPart, Expression, Flow, Node, ParsedStory},
     error::CompilerError,
 };
 
